@@ -171,7 +171,7 @@ let mut violations: HashMap<PathBuf, Vec<Violation>> = HashMap::new()
             let ghost v0 = violations@;
             proof {
                 assert(verif_ents@[it.index@ as int] == (file_path, file_blocks));
-                lemma_file_start(verif_ents@, it.index@ as int, v0, ku_stepf());
+                lemma_file_start(verif_ents@, it.index@ as int, v0, ku_stepf()); // [VO2.proof.each_file_visited_once]
             }
 //@edit rule=E4 find=<<for (file_path, file_blocks) in &context.blocks>>
         let verif_ents = verif_ref_entries(&context.blocks);
@@ -194,7 +194,7 @@ let mut violations: HashMap<PathBuf, Vec<Violation>> = HashMap::new()
                     assert(context.blocks@.contains_key(*file_path) && context.blocks@[*file_path] == *file_blocks);
                     assert(block_wf(context.blocks@[*file_path].blocks_with_context@[verif_j - 1].block));
                     if !ku_has(*block_with_context) {
-                        lemma_file_step(*file_path, *file_blocks, verif_j - 1, v0, m1, m1, ku_stepf()(*file_path, *file_blocks));
+                        lemma_file_step(*file_path, *file_blocks, verif_j - 1, v0, m1, m1, ku_stepf()(*file_path, *file_blocks)); // [VO2.proof.block_without_attribute_is_skipped]
                     }
                 }
 //@chain rule=E13 find=<<.cloned() .unwrap_or_default()>> to=verif_cloned_or_default count=all optional=1
@@ -203,11 +203,11 @@ let mut violations: HashMap<PathBuf, Vec<Violation>> = HashMap::new()
                 proof { assert(ku_has(*block_with_context) && ku_re_ok(*block_with_context, re0)); } // [VO2.proof.args_are_the_blocks_own]
 //@edit rule=ghost after=<<file_path, re, &mut violations)?;>>
                 proof {
-                    assert(ku_inner_ok(*block_with_context, *file_blocks, re0, map_get_or_empty(m1, *file_path), map_get_or_empty(violations@, *file_path))); // [VO2.proof.inner_contract_gives_step]
-                    lemma_file_step(*file_path, *file_blocks, verif_j - 1, v0, m1, violations@, ku_stepf()(*file_path, *file_blocks));
+                    assert(ku_inner_ok(*block_with_context, *file_blocks, re0, map_get_or_empty(m1, *file_path), map_get_or_empty(violations@, *file_path))); // [VO2.proof.inner_contract_implies_step_relation]
+                    lemma_file_step(*file_path, *file_blocks, verif_j - 1, v0, m1, violations@, ku_stepf()(*file_path, *file_blocks)); // [VO2.proof.inner_contract_gives_step]
                 }
 //@edit rule=ghost before=<<} Ok(violations)>>
-            proof { lemma_file_done(verif_ents@, it.index@ as int, v0, violations@, ku_stepf()); }
+            proof { lemma_file_done(verif_ents@, it.index@ as int, v0, violations@, ku_stepf()); } // [VO2.proof.file_done]
 //@edit rule=ghost before=<<Ok(violations)>>
         proof {
             assert(outer_ok(*context, violations@, ku_stepf())) by {
